@@ -140,7 +140,7 @@ impl Property for C09 {
         "C09"
     }
     fn cases(&self, tier: Tier) -> u32 {
-        tier.pick(40_000, 400_000)
+        tier.pick(300_000, 3_000_000)
     }
     fn strategy(&self, tier: Tier) -> BoxedStrategy<Abs> {
         let n = tier.pick(40, 80);
